@@ -19,6 +19,7 @@ import (
 	"os"
 	"os/exec"
 	"path/filepath"
+	"runtime/debug"
 	"sort"
 	"strconv"
 	"strings"
@@ -180,12 +181,17 @@ var (
 	normCands   map[string][]norm.Cand // per config
 	normProgs   = map[string]*an.Program{}
 	normInlined = map[string][]string{}
+	normOrder   []string // keys of the loaded variant programs, oldest first
+	normGood    = map[string]bool{}
 )
 
 // decideOnEquivalentForm re-decides a check that did not succeed on the program as written on semantically equivalent
-// forms of it, obtained by inlining helpers that have a single caller (package norm): first all the helpers that the
-// unproved obligations mention (as the helper or as its caller), then each of them alone. The first form on which every
-// obligation is proved gives the result (with a note naming the form); otherwise the original result stands.
+// forms of it, obtained by inlining helpers with few call sites (package norm). The forms are tried in this order: all
+// the helpers that the unproved obligations mention (as the helper or as its caller); those of them that are not the
+// function a failing obligation sits in; then single helpers - the ones the pinned tree does not have (norm.Baseline)
+// first, including helpers reachable from the functions the check analysed, and a few helpers of the pinned tree after
+// them. At most 12 forms are loaded (3 when the tree has no helper that the pinned tree does not have). The first form on which every obligation is proved and which covers what failed
+// (coversFailures) gives the result, with a note naming the form; otherwise the original result stands.
 func decideOnEquivalentForm(repo string, cfg an.Config, p *an.Program, pc *an.PropertyCheck, r *an.Result, tier string) *an.Result {
 	env, flags := an.LoadEnv(cfg)
 	if normCands == nil {
@@ -214,31 +220,149 @@ func decideOnEquivalentForm(repo string, cfg an.Config, p *an.Program, pc *an.Pr
 		}
 	}
 	failing := text.String()
+	isNew := func(full string) bool { return !norm.Baseline[full] }
+	analysed := map[string]bool{}
+	for _, f := range r.Analysed {
+		analysed[f] = true
+	}
+	// the helpers the failing obligations name (as the helper or as its caller)
 	var related []string
+	seenRel := map[string]bool{}
 	for _, cd := range cands {
+		if seenRel[cd.Callee] {
+			continue
+		}
 		if strings.Contains(failing, short(cd.Callee)) || (cd.Caller != "" && strings.Contains(failing, short(cd.Caller))) {
 			related = append(related, cd.Callee)
+			seenRel[cd.Callee] = true
 		}
 	}
-	if len(related) == 0 {
-		// nothing names a function (an anchor was not found): the helpers that can hide an anchor are those that write
-		// shared state, perform file operations or hand out a pointer
-		anchorMissing := false
-		for _, o := range r.Obls {
-			if (o.Verdict == an.Violated || o.Verdict == an.Undecided) && (o.Rule == "ANCHOR" || strings.Contains(o.Why, "anchor missing")) {
-				anchorMissing = true
+	// the helpers reachable from the functions the check analysed (the obligation names one side of a two-sided rule,
+	// the helper was extracted on the other side), transitively
+	var reachable []string
+	{
+		reach := map[string]bool{}
+		for f := range analysed {
+			reach[f] = true
+		}
+		seen := map[string]bool{}
+		for changed := true; changed; {
+			changed = false
+			for _, cd := range cands {
+				if seen[cd.Callee] || seenRel[cd.Callee] || !(reach[short(cd.Callee)] || (cd.Caller != "" && reach[short(cd.Caller)])) {
+					continue
+				}
+				seen[cd.Callee] = true
+				reach[short(cd.Callee)] = true
+				changed = true
+				reachable = append(reachable, cd.Callee)
 			}
 		}
-		if !anchorMissing {
-			return nil
+	}
+	if os.Getenv("GCACHECK_DEBUG") != "" {
+		fmt.Fprintf(os.Stderr, "related helpers: %v\nreachable helpers: %v\n", related, reachable)
+	}
+	anchorMissing := false
+	files := map[string]bool{}
+	anchors := map[string]bool{}
+	for _, o := range r.Obls {
+		if o.Verdict != an.Violated && o.Verdict != an.Undecided {
+			continue
 		}
+		if o.Rule == "ANCHOR" || strings.Contains(o.Why, "anchor missing") {
+			anchorMissing = true
+		}
+		if i := strings.Index(o.Pos, ":"); i > 0 {
+			files[o.Pos[:i]] = true
+		}
+		anchors[o.Func] = true
+	}
+	inFile := map[string]bool{}
+	for _, cd := range cands {
+		for _, f := range cd.Files {
+			if files[f] {
+				inFile[cd.Callee] = true
+			}
+		}
+	}
+	// The forms, in the order in which they are tried. A helper that the pinned tree does not have (norm.Baseline) is
+	// what a change introduced: those come first and are all tried; helpers of the pinned tree, with which the checks
+	// pass as they stand, are tried a few at a time. At most maxForms forms are loaded for one check and configuration.
+	maxForms := 12
+	anyNew := false
+	for _, cd := range cands {
+		if isNew(cd.Callee) {
+			anyNew = true
+		}
+	}
+	if !anyNew {
+		// the helpers are those of the pinned tree, with which the checks pass: what fails is not hidden by a helper
+		// somebody introduced; a few forms are tried all the same (an existing helper may have been reshaped)
+		maxForms = 3
+	}
+	var variants [][]string
+	have := map[string]bool{}
+	add := func(v []string) {
+		if len(v) == 0 || len(variants) >= maxForms {
+			return
+		}
+		k := strings.Join(v, ",")
+		if have[k] {
+			return
+		}
+		have[k] = true
+		variants = append(variants, v)
+	}
+	addSingles := func(xs []string, limit int) {
+		n := 0
+		for _, x := range xs {
+			if n >= limit {
+				return
+			}
+			if !have[x] {
+				n++
+			}
+			add([]string{x})
+		}
+	}
+	filter := func(xs []string, keep func(string) bool) []string {
+		var out []string
+		for _, x := range xs {
+			if keep(x) {
+				out = append(out, x)
+			}
+		}
+		return out
+	}
+	if len(related) > 0 && len(related) <= 12 {
+		// all of them together
+		add(related)
+		// without the functions the failing obligations sit in (the anchors of the rules stay where the rules look)
+		if len(related) > 2 {
+			if leaves := filter(related, func(x string) bool { return !anchors[short(x)] }); len(leaves) > 1 && len(leaves) < len(related) {
+				add(leaves)
+			}
+		}
+		// the new ones together
+		if nw := filter(related, isNew); len(nw) > 1 && len(nw) < len(related) {
+			add(nw)
+		}
+	}
+	addSingles(filter(related, isNew), maxForms)
+	addSingles(filter(reachable, isNew), 8)
+	addSingles(filter(related, func(x string) bool { return !isNew(x) }), 3)
+	if len(related) == 0 && anchorMissing {
+		// nothing names a function (an anchor was not found): the helpers that can hide an anchor are those that write
+		// shared state, perform file operations or hand out a pointer
 		byName := map[string]*ssa.Function{}
 		for _, fn := range p.SrcFuncs() {
 			byName[an.FuncName(fn)] = fn
 		}
+		var ranked []string
+		seen := map[string]bool{}
 		for _, cd := range cands {
 			fn := byName[short(cd.Callee)]
-			if fn == nil {
+			if fn == nil || seen[cd.Callee] {
 				continue
 			}
 			e := p.Effect(fn)
@@ -259,42 +383,38 @@ func decideOnEquivalentForm(repo string, cfg an.Config, p *an.Program, pc *an.Pr
 				rank = 2
 			}
 			if rank >= 0 {
-				dup := false
-				for _, x := range related {
-					if x[2:] == cd.Callee {
-						dup = true
-					}
+				if isNew(cd.Callee) {
+					rank -= 3
 				}
-				if !dup {
-					related = append(related, fmt.Sprintf("%d:%s", rank, cd.Callee))
-				}
+				seen[cd.Callee] = true
+				ranked = append(ranked, fmt.Sprintf("%d:%s", rank+3, cd.Callee))
 			}
 		}
-		sort.Strings(related)
-		for i := range related {
-			related[i] = related[i][2:]
+		sort.Strings(ranked)
+		for i := range ranked {
+			ranked[i] = ranked[i][2:]
 		}
-		// singles only: inlining all of them at once would move the anchors of the other rules
-		if len(related) == 0 {
-			return nil
-		}
-		if len(related) > 16 {
-			related = related[:16]
-		}
-		var vs [][]string
-		for _, x := range related {
-			vs = append(vs, []string{x})
-		}
-		return tryVariants(repo, cfg, pc, tier, vs, short, failing, r)
+		addSingles(ranked, 6)
 	}
-	if len(related) > 12 {
+	// helpers of the pinned tree on the other side of a two-sided rule: those the check does not analyse itself first,
+	// then those in the files of the failing obligations
+	old := filter(reachable, func(x string) bool { return !isNew(x) })
+	rank := func(x string) int {
+		switch {
+		case !analysed[short(x)]:
+			return 0
+		case inFile[x]:
+			return 1
+		}
+		return 2
+	}
+	sort.SliceStable(old, func(i, j int) bool { return rank(old[i]) < rank(old[j]) })
+	addSingles(old, 2)
+	if os.Getenv("GCACHECK_DEBUG") != "" {
+		fmt.Fprintf(os.Stderr, "forms to try: %v\n", variants)
+	}
+	if len(variants) == 0 {
 		return nil
-	}
-	variants := [][]string{related}
-	if len(related) > 1 {
-		for _, x := range related {
-			variants = append(variants, []string{x})
-		}
 	}
 	return tryVariants(repo, cfg, pc, tier, variants, short, failing, r)
 }
@@ -307,7 +427,7 @@ func coversFailures(orig, r2 *an.Result) bool {
 	count := func(r *an.Result, rule string) int {
 		n := 0
 		for _, o := range r.Obls {
-			if o.Rule == rule && o.Verdict != an.Note {
+			if o.Rule == rule && o.Verdict != an.Note && !strings.HasPrefix(o.Key, "floor:") {
 				n++
 			}
 		}
@@ -322,10 +442,48 @@ func coversFailures(orig, r2 *an.Result) bool {
 		}
 		failedRules[o.Rule] = true
 	}
+	construct := func(key string) string {
+		if i := strings.LastIndex(key, "|"); i >= 0 {
+			return key[i+1:]
+		}
+		return key
+	}
+	// pairedElsewhere: the rule has at least one instance more than was already proved on the source as written, and
+	// every construct that failed there is examined on the form (same rule, same construct, whatever function it now
+	// sits in): two failures of one pairing (append here, advance in the helper) become one proved pair
+	pairedElsewhere := func(rule string) bool {
+		proved := 0
+		for _, o := range orig.Obls {
+			if o.Rule == rule && o.Verdict == an.Proved {
+				proved++
+			}
+		}
+		if count(r2, rule) < proved+1 {
+			return false
+		}
+		for _, o := range orig.Obls {
+			if o.Rule != rule || (o.Verdict != an.Violated && o.Verdict != an.Undecided) || strings.HasPrefix(o.Key, "floor:") {
+				continue
+			}
+			found := false
+			for _, o2 := range r2.Obls {
+				if o2.Rule == rule && o2.Verdict == an.Proved && construct(o2.Key) == construct(o.Key) {
+					found = true
+				}
+			}
+			if !found {
+				if os.Getenv("GCACHECK_DEBUG") != "" {
+					fmt.Fprintf(os.Stderr, "equivalent form does not examine %s\n", o.Key)
+				}
+				return false
+			}
+		}
+		return true
+	}
 	for rule := range failedRules {
 		// the rule that failed applies on the form at least as often as on the source as written (and, by the
 		// caller's test, every instance is proved there)
-		if count(r2, rule) < count(orig, rule) {
+		if count(r2, rule) < count(orig, rule) && !pairedElsewhere(rule) {
 			if os.Getenv("GCACHECK_DEBUG") != "" {
 				fmt.Fprintf(os.Stderr, "equivalent form has fewer instances of rule %s: %d < %d\n", rule, count(r2, rule), count(orig, rule))
 			}
@@ -349,6 +507,14 @@ func tryVariants(repo string, cfg an.Config, pc *an.PropertyCheck, tier string, 
 			res, err := norm.Inline(repo, env, flags, an.ModulePath, "./glow", "./server", "./client")
 			norm.Only = nil
 			if err != nil || len(res.Inlined) == 0 {
+				if os.Getenv("GCACHECK_DEBUG") != "" {
+					fmt.Fprintf(os.Stderr, "variant %v: nothing inlined (err %v)\n", v, err)
+					if res != nil {
+						for _, why := range res.Skipped {
+							fmt.Fprintf(os.Stderr, "    skipped %s\n", why)
+						}
+					}
+				}
 				normProgs[key] = nil
 				continue
 			}
@@ -360,6 +526,24 @@ func tryVariants(repo string, cfg an.Config, pc *an.PropertyCheck, tier string, 
 			if tier == "thorough" {
 				p2.SetInlineBound(8)
 			}
+			// few variant programs are kept (each holds a whole type-checked program, about 1 GB)
+			// (at most 3: a variant that decided a property is kept in preference to those that decided nothing)
+			if len(normOrder) >= 3 {
+				k := 0
+				for i, key := range normOrder {
+					if !normGood[key] {
+						k = i
+						break
+					}
+				}
+				old := normOrder[k]
+				normOrder = append(normOrder[:k], normOrder[k+1:]...)
+				delete(normProgs, old)
+				delete(normInlined, old)
+				delete(normGood, old)
+				debug.FreeOSMemory()
+			}
+			normOrder = append(normOrder, key)
 			normProgs[key] = p2
 			normInlined[key] = res.Inlined
 		}
@@ -371,11 +555,27 @@ func tryVariants(repo string, cfg an.Config, pc *an.PropertyCheck, tier string, 
 			defer func() {
 				if rec := recover(); rec != nil {
 					c2.R.Error = fmt.Sprintf("checker panic: %v", rec)
+					if os.Getenv("GCACHECK_DEBUG") != "" {
+						fmt.Fprintf(os.Stderr, "%s\n", debug.Stack())
+					}
 				}
 			}()
 			pc.Run(c2)
 		}()
 		c2.Finish()
+		if os.Getenv("GCACHECK_DEBUG") != "" {
+			fmt.Fprintf(os.Stderr, "variant %v (inlined %v): failed=%v\n", v, normInlined[key], failedResult(c2.R))
+			n := 0
+			for _, o := range c2.R.Obls {
+				if (o.Verdict == an.Violated || o.Verdict == an.Undecided) && n < 6 {
+					n++
+					fmt.Fprintf(os.Stderr, "    %s %s [%s] %.200s -- %.200s\n", o.Pos, o.Func, o.Rule, o.Desc, o.Why)
+				}
+			}
+			if c2.R.Error != "" {
+				fmt.Fprintf(os.Stderr, "    error %s\n", c2.R.Error)
+			}
+		}
 		if !failedResult(c2.R) && coversFailures(orig, c2.R) {
 			var names []string
 			for _, x := range v {
@@ -383,6 +583,7 @@ func tryVariants(repo string, cfg an.Config, pc *an.PropertyCheck, tier string, 
 			}
 			c2.Note("FORM", nil, 0, "equivalent-form", "decided on an equivalent form of the source: the single-caller helper(s) "+strings.Join(names, ", ")+" inlined into their caller (package norm; positions refer to that form); "+fmt.Sprintf("%d obligation(s) were not proved on the source as written", strings.Count(failing, "\n")))
 			c2.Finish()
+			normGood[key] = true
 			return c2.R
 		}
 	}
